@@ -48,7 +48,7 @@ func c01(c *an.Ctx) {
 			sw := f.Find(call(r, E+":WAL.Switch"))
 			snapObj := obj(r, E+":shard.snapshotTbl")
 			actObj := obj(r, E+":shard.activeTbl")
-			setSnap := f.Find(an.MStore("s.snapshotTbl = s.activeTbl", snapObj, func(f *an.Fn, e ast.Expr) bool { return refIs(f, e, actObj) }))
+			setSnap := f.Find(an.MStore("s.snapshotTbl = s.activeTbl", snapObj, func(f *an.Fn, e ast.Expr) bool { return refIsOrHolds(f, e, actObj) }))
 			setAct := f.Find(an.MStore("s.activeTbl = <new>", actObj, nil))
 			if !r.Failed() {
 				ls := f.Locks(nil)
@@ -93,7 +93,7 @@ func c01(c *an.Ctx) {
 			sw := f.Find(call(r, E+":WAL.Switch"))
 			actObj := obj(r, E+":shard.activeTbl")
 			contObj := obj(r, E+":ColumnStoreImpl.snapshotContainer")
-			keep := f.Find(an.MStore("snapshotContainer[idx] = s.activeTbl", contObj, func(f *an.Fn, e ast.Expr) bool { return refIs(f, e, actObj) }))
+			keep := f.Find(an.MStore("snapshotContainer[idx] = s.activeTbl", contObj, func(f *an.Fn, e ast.Expr) bool { return refIsOrHolds(f, e, actObj) }))
 			setAct := f.Find(an.MStore("s.activeTbl = <new>", actObj, nil))
 			if !r.Failed() {
 				ls := f.Locks(nil)
@@ -361,6 +361,9 @@ func c01(c *an.Ctx) {
 				g := f.Lit(lit, "flushClosure")
 				s := g.Find(fc)
 				g.Guarded(r, s, "FlushChunks only when !checkMstDeleting(mst)", an.AtomLike(`^recv\.checkMstDeleting\(p0\)$`, false))
+			} else if h := c01flushHelper(c, f, fc); h != nil {
+				// the closure's body was extracted into a method of the shard that the closure calls
+				h.Guarded(r, h.Find(fc), "FlushChunks only when !checkMstDeleting(mst)", an.AtomLike(`^recv\.checkMstDeleting\(p\d\)$`, false))
 			} else if !r.Failed() {
 				r.Fail(f.Name+": flush closure", c.P.Pos(f.Body.Pos()), "commitSnapshot no longer flushes through a per-measurement closure containing FlushChunks")
 			}
@@ -896,4 +899,41 @@ func c01markerNeverPooled(c *an.Ctx) {
 	}
 	r.AddSites(n)
 	r.Floor(1, "callers of putWalRowsObjects")
+}
+
+// c01flushHelper finds the function of the engine package, called from commitSnapshot (directly
+// or from one of its closures), that contains the FlushChunks call.
+func c01flushHelper(c *an.Ctx, f *an.Fn, fc an.Matcher) *an.Fn {
+	var out *an.Fn
+	ast.Inspect(f.Body, func(m ast.Node) bool {
+		ce, ok := m.(*ast.CallExpr)
+		if !ok || out != nil {
+			return true
+		}
+		cal := an.Callee(f.Info, ce)
+		if cal == nil || cal.Pkg() != f.Pkg.Types {
+			return true
+		}
+		if src := c.P.Src(cal); src != nil && src.Decl.Body != nil {
+			if h := c.P.Fn(src); h != nil && h.Find(fc).Len() > 0 {
+				out = h
+			}
+		}
+		return true
+	})
+	return out
+}
+
+// refIsOrHolds: e is a reference to obj, or a local that holds nothing but obj (`snapshot := s.activeTbl`).
+func refIsOrHolds(f *an.Fn, e ast.Expr, o types.Object) bool {
+	if refIs(f, e, o) {
+		return true
+	}
+	if _, isID := ast.Unparen(e).(*ast.Ident); !isID {
+		return false
+	}
+	return derivesFrom(f, localDefs(f), e, func(n ast.Node) bool {
+		sel, ok := n.(*ast.SelectorExpr)
+		return ok && f.Info.Uses[sel.Sel] == o
+	}, 0)
 }
